@@ -1,13 +1,88 @@
 import LA.Drv.Util
+import LA.Model.Auparse
 
-/-! line-protocol commands of the Auparse family (filled in with its model). -/
+/-! line-protocol commands of the parser family (C04, C05, C12). -/
 namespace LA.Drv.Auparse
+open LA LA.Auparse
 
 structure State where
   dummy : Unit := ()
 
 def init : State := {}
 
-def cmd (s : State) (_args : List String) : State × String := (s, "bad-op")
+def toNats (b : LA.Drv.Bytes) : LA.Bytes := b.map (·.toNat)
+def hexN (b : LA.Bytes) : String := LA.Drv.hex (b.map (fun n => UInt8.ofNat n))
+
+def lexLt : LA.Bytes → LA.Bytes → Bool
+  | [], [] => false
+  | [], _ :: _ => true
+  | _ :: _, [] => false
+  | a :: as, b :: bs => if a < b then true else if b < a then false else lexLt as bs
+
+def insertKV (p : LA.Bytes × LA.Bytes) : List (LA.Bytes × LA.Bytes) → List (LA.Bytes × LA.Bytes)
+  | [] => [p]
+  | q :: rest => if lexLt p.1 q.1 then p :: q :: rest else q :: insertKV p rest
+
+def sortKV (l : List (LA.Bytes × LA.Bytes)) : List (LA.Bytes × LA.Bytes) := l.foldr insertKV []
+
+def renderMsg : Res Msg → String
+  | .ok m => s!"t={m.typ} s={m.sec} ns={m.nsec} q={m.seq} raw={hexN m.raw}"
+  | .err c => "err:" ++ c
+  | .panic => "panic"
+
+def renderTags (t : List LA.Bytes) : String := "tags=" ++ ",".intercalate (t.map hexN)
+
+def renderData (d : DataOut) : String :=
+  match d.data with
+  | .ok kvs => "ok " ++ ",".intercalate ((sortKV kvs).map (fun p => hexN p.1 ++ "=" ++ hexN p.2)) ++ ";" ++ renderTags d.tags
+  | .err c => "err:" ++ c ++ ";" ++ renderTags d.tags
+  | .panic => "panic"
+
+def cmd (s : State) (args : List String) : State × String :=
+  match args with
+  | ["line", h] =>
+    match LA.Drv.unhex h with
+    | some b =>
+      let l := toNats b
+      if modelledLine l then (s, renderMsg (parseLogLine l)) else (s, "unmodelled:typename")
+    | none => (s, "bad-op")
+  | ["parse", t, h] =>
+    match t.toNat?, LA.Drv.unhex h with
+    | some t, some b => (s, renderMsg (parse t (toNats b)))
+    | _, _ => (s, "bad-op")
+  | ["data", t, h] =>
+    match t.toNat?, LA.Drv.unhex h with
+    | some t, some b =>
+      match parse t (toNats b) with
+      | .ok m =>
+        if m.offset ≥ 0 ∧ !(modelledBody t (m.raw.drop m.offset.toNat)) then (s, "unmodelled:avc")
+        else
+          -- Data() twice through the cache cell: both results must agree (rendered once if equal)
+          let r1 := dataCached m none
+          let r2 := dataCached m r1.2
+          let a := renderData r1.1
+          let b := renderData r2.1
+          (s, if a == b then a else "unstable:" ++ a ++ "|" ++ b)
+      | .err c => (s, "err:" ++ c)
+      | .panic => (s, "panic")
+    | _, _ => (s, "bad-op")
+  | ["mapstr", t, h] =>
+    match t.toNat?, LA.Drv.unhex h with
+    | some t, some b =>
+      match parse t (toNats b) with
+      | .ok m =>
+        if m.offset ≥ 0 ∧ !(modelledBody t (m.raw.drop m.offset.toNat)) then (s, "unmodelled:avc")
+        else
+          let ms := toMapStr m (dataOf m)
+          let render : MVal → String
+            | .str b => hexN b
+            | .tags t => "[" ++ ",".intercalate (t.map hexN) ++ "]"
+            | .timestamp sec nsec => s!"ts({sec},{nsec})"
+          let kvs := ms.map (fun p => (p.1, (render p.2).toUTF8.toList.map (·.toNat)))
+          (s, ",".intercalate ((sortKV kvs).map (fun p => hexN p.1 ++ "=" ++ String.ofList (p.2.map (fun n => Char.ofNat n)))))
+      | .err c => (s, "err:" ++ c)
+      | .panic => (s, "panic")
+    | _, _ => (s, "bad-op")
+  | _ => (s, "bad-op")
 
 end LA.Drv.Auparse
